@@ -966,6 +966,10 @@ def replay(rep: dict) -> bool:
                          "all-None": tuple(None for _ in sp)}[rep["shape_opt"]]
             pad0 = None if rep["padding"] is None else from_rep(rep["padding"])
             return check_create_and_apply(fac, k0, shape_opt, rep["use_seed"], rep["return_acs"], pad0, rep["filename"]) is not None
+        if op == "x_splitter":
+            return check_splitter(rep["seed"]) is not None
+        if op == "x_unchanged":
+            return check_unchanged(rep["subject"], rep["mode"], rep["seed"]) is not None
         if op == "x_ssl":
             return check_ssl_engine(rep["seed"]) is not None
         if op == "x_acs":
@@ -1057,3 +1061,126 @@ def run_history_script(subject: str, kshape, mshape, mdn, script):
         with torch.no_grad():
             outs.append(f(k, m, {}).clone())
     return outs
+
+
+
+# --------------------------------------------------------------------------------------------------
+# every operator leaves its input tensors untouched — with gradients tracked, under no_grad and under inference_mode
+GRAD_MODES = {"grad": torch.enable_grad, "no_grad": torch.no_grad, "inference": torch.inference_mode}
+
+
+def unchanged_subjects():
+    """name -> callable(k, m, S, x) (k: multi-coil k-space NON-ZERO off the mask, m: mask, S: maps, x: image)"""
+    import direct.data.transforms as T
+    from direct.data import mri_transforms as MT
+    from direct.nn.conjgradnet.conjgrad import ConjGrad
+    from direct.nn.rim.rim import MRILogLikelihood
+
+    eng = B().toy_engine()
+
+    def with_ops(f):
+        def g(*a):
+            eng.forward_operator, eng.backward_operator = T.fft2, T.ifft2
+            return f(*a)
+        return g
+    cg = ConjGrad(T.fft2, T.ifft2)
+    ll = MRILogLikelihood(T.fft2, T.ifft2)
+    return {
+        "apply_mask": lambda k, m, S, x: T.apply_mask(k, m, return_mask=False),
+        "apply_mask-tuple": lambda k, m, S, x: T.apply_mask(k, m),
+        "apply_padding": lambda k, m, S, x: T.apply_padding(k, m),
+        "ApplyMaskModule": lambda k, m, S, x: MT.ApplyMaskModule()({"kspace": k, "sampling_mask": m}),
+        "ApplyMask-wrapper": lambda k, m, S, x: MT.ApplyMask()({"kspace": k, "sampling_mask": m}),
+        "engine._forward_operator": with_ops(lambda k, m, S, x: eng._forward_operator(x, S, m)),
+        "engine._backward_operator": with_ops(lambda k, m, S, x: eng._backward_operator(k, S, m)),
+        "ConjGrad._A_star_op": lambda k, m, S, x: cg._A_star_op(k, S, m),
+        "ConjGrad._A_star_A_op": lambda k, m, S, x: cg._A_star_A_op(x, S, m),
+        "MRILogLikelihood": lambda k, m, S, x: ll(x.permute(0, 3, 1, 2), k, S, m),
+    }
+
+
+def check_unchanged(name: str, mode: str, seed: int):
+    import random
+
+    rng = random.Random(f"c03-unch-{name}-{mode}-{seed}")
+    b, c, h, w = rng.choice([1, 2]), rng.choice([1, 2, 3, rng.choice(LADDER)]), rng.choice([2, 3, 4]), rng.choice([2, 3, 5])
+    kshape = [b, c, h, w, 2]
+    mdn = rng.choice(["bool", "uint8", "int64", "float32", "float64"])
+    m = rand_mask(rng, rng.choice([[b, 1, h, w, 1], [1, 1, h, w, 1]]), mdn, rng.choice(["random", "sparse", "zeros", "values"]))
+    k = rand_values(rng, kshape, specials=False) + 3.0            # non-zero at (almost) every unsampled position
+    S, x = rand_values(rng, kshape, specials=False), rand_values(rng, [b, h, w, 2], specials=False)
+    args = (k, m, S, x)
+    before = [bits(t) for t in args]
+    versions = [t._version for t in args]
+    train = rng.random() < 0.5
+    B().toy_engine().model.train(train)
+    with GRAD_MODES[mode]():
+        unchanged_subjects()[name](*args)
+    for t, b0, v0, label in zip(args, before, versions, ("k-space", "mask", "sensitivity map", "image")):
+        if (bits(t) != b0).any() or t._version != v0:
+            n = int((bits(t) != b0).sum())
+            return (f"{name}-mutates-input",
+                    f"{name} [{mode}, model.training={train}, k-space {kshape}, mask {mdn}{list(m.shape)}]: the {label} it was given was "
+                    f"modified in place ({n} entries changed)")
+    return None
+
+
+def oracle_unchanged(ctx: Ctx, deep: bool):
+    rng = ctx.rng
+    for name in unchanged_subjects():
+        for mode in GRAD_MODES:
+            for j in range(ctx.budget(3, 30) * (2 if deep else 1)):
+                seed = rng.randrange(2 ** 30)
+                ctx.count(("x-unch", name, mode, seed), True, bucket=f"oracle/inputs-unchanged/{name}/{mode}")
+                try:
+                    r = check_unchanged(name, mode, seed)
+                except Exception as e:  # noqa: BLE001
+                    r = (f"{name}-raises", f"{name} [{mode}] raises {err_name(e)}: {str(e)[:160]}")
+                if r:
+                    yield Violation(r[0], r[1], {"op": "x_unchanged", "subject": name, "mode": mode, "seed": seed})
+
+
+# --------------------------------------------------------------------------------------------------
+# SSL mask splitters (direct/ssl/ssl.py, a caller outside the anchored files): the two k-spaces they emit are
+# apply_mask(kspace, input mask) / apply_mask(kspace, target mask), for either `kspace_key`
+def check_splitter(seed: int):
+    import random
+
+    from direct.ssl.ssl import HalfMaskSplitterModule, UniformMaskSplitterModule
+
+    rng = random.Random(f"c03-split-{seed}")
+    b, c, h, w = rng.choice([1, 2, 3]), rng.choice([1, 2, rng.choice(LADDER)]), rng.choice([6, 8, 9]), rng.choice([6, 7, 10])
+    kshape = [b, c, h, w, 2]
+    kkey = rng.choice(["masked_kspace", "kspace"])
+    cls = rng.choice([UniformMaskSplitterModule, HalfMaskSplitterModule])
+    mod = cls(kspace_key=kkey, use_seed=rng.random() < 0.5)
+    sm = torch.tensor([rng.random() < 0.6 for _ in range(b * h * w)]).reshape(b, 1, h, w, 1)
+    k0 = rand_values(rng, kshape)
+    other = rand_values(rng, kshape)
+    sample = {"sampling_mask": sm.clone(), kkey: k0.clone(), ("kspace" if kkey == "masked_kspace" else "masked_kspace"): other.clone(),
+              "acs_mask": torch.zeros_like(sm), "filename": [f"f{j}" for j in range(b)], "slice_no": list(range(b))}
+    tag = f"{cls.__name__}(kspace_key={kkey!r}), k-space {kshape}"
+    try:
+        out = mod(sample)
+        for pre in ("input_", "target_"):
+            msk, ksp = out[pre + "sampling_mask"], out[pre + kkey]
+            r = check_masked(ksp, bits(k0), kshape, k0.dtype, nonzero(msk), f"splitter-{pre}kspace")
+            if r:
+                return r[0], f"{tag}: {r[1]}"
+            if bool((torch.from_numpy(nonzero(msk)) & ~sm).any()):
+                return "splitter-mask-outside-sampling-mask", f"{tag}: the {pre}mask is set where the sampling mask is not"
+        if (bits(out[kkey]) != bits(k0)).any():
+            return "splitter-mutates-kspace", f"{tag}: sample[{kkey!r}] was modified"
+    except Exception as e:  # noqa: BLE001
+        return "splitter-raises", f"{tag} raises {err_name(e)}: {str(e)[:160]}"
+    return None
+
+
+def oracle_splitter(ctx: Ctx, deep: bool):
+    rng = ctx.rng
+    for i in range(ctx.budget(24, 240)):
+        seed = rng.randrange(2 ** 30)
+        ctx.count(("x-split", seed), True, bucket="oracle/ssl-splitter")
+        r = check_splitter(seed)
+        if r:
+            yield Violation(r[0], r[1], {"op": "x_splitter", "seed": seed})
